@@ -125,7 +125,7 @@ pub fn run(ctx: &Ctx) -> i32 {
             ],
             exhaustive: false,
             extra: Default::default(),
-            min_nontrivial: 100,
+            min_nontrivial: 10,
         },
     )
 }
